@@ -519,10 +519,24 @@ func callBody(i *interpreter, caller *frame, fr *frame, fn *ssa.Function, args [
 		fmt.Fprintf(os.Stderr, "%*scall %s\n", i.path.depth, "", fn)
 	}
 	i.path.depth++
+	i.path.stack = append(i.path.stack, fn)
 	if i.path.depth > i.path.maxDepth {
 		panic(pathEnd{"unwind: call depth exceeded in " + fn.String()})
 	}
-	defer func() { i.path.depth-- }()
+	defer func() {
+		i.path.depth--
+		if r := recover(); r != nil {
+			if i.path.panicStack == nil {
+				n := len(i.path.stack)
+				for k := n - 1; k >= 0 && k >= n-10; k-- {
+					i.path.panicStack = append(i.path.panicStack, i.path.stack[k].String())
+				}
+			}
+			i.path.stack = i.path.stack[:len(i.path.stack)-1]
+			panic(r)
+		}
+		i.path.stack = i.path.stack[:len(i.path.stack)-1]
+	}()
 	if fn.Pkg != nil && i.path.res != nil {
 		i.path.res.Funcs[fn.String()] = true
 	}
